@@ -12,6 +12,14 @@ import (
 func c09ws(c *core.Ctx) {
 	wsWriteErrors(c, "c09-ws")
 	C1 := xOp{kind: "C", dialOK: true}
+	// a send overtaken by a Disconnect / Reconnect after it has looked at the session: if the frame write then fails
+	// (the connection was closed under it) the send reports an error -- every interleaving, against the model
+	for _, cf := range []xConf{
+		{name: "websocket: Send || Disconnect", progs: [][]xOp{{C1, xSend(20, true)}, {{kind: "D"}}}},
+		{name: "websocket: SendRaw || Reconnect", progs: [][]xOp{{C1, {kind: "W", raw: []byte{1, 2, 3}, wok: true}}, {{kind: "R", dialOK: true}}}},
+	} {
+		xExplore(c, cf, c.N(60, 3000), func(run xRun, replay map[string]interface{}) {})
+	}
 	for _, size := range []int{10, 2049, 6000} {
 		for _, wok := range []bool{true, false} {
 			cf := xConf{name: fmt.Sprintf("ws send size=%d write-ok=%v", size, wok), progs: [][]xOp{{C1, xSend(size, wok), xBad(), {kind: "W", raw: []byte{1, 2, 3}, wok: wok}, xSend(12, true)}}}
